@@ -3,11 +3,12 @@ package main
 // C05 — Newick write -> read, names that need quoting.
 
 import (
-	"io"
 	"bytes"
 	"fmt"
+	"io"
 	"math"
 	"math/rand/v2"
+	"strconv"
 
 	"github.com/fluhus/biostuff/formats/newick"
 )
@@ -146,6 +147,7 @@ func init() {
 			{Name: "long", TShards: 2, Run: c05Long},
 			{Name: "sizes", TShards: 6, Run: c05Sizes},
 			{Name: "distinct", TShards: 4, Run: c05Distinct},
+			{Name: "decimals", QShards: 4, TShards: 12, Run: c05Decimals},
 			{Name: "prefixes", Run: prefixUnit("newick", false, 0)},
 			{Name: "edges", Run: edgeUnit("newick")},
 			{Name: "fieldlens", TShards: 2, Run: lengthUnit("newick")},
@@ -518,5 +520,56 @@ func c05Distinct(c *Ctx) {
 			k.Count("distinct_tokens_one_reader", int64(2*serial))
 			k.Nontrivial([]byte(fmt.Sprint(i, serial)), text.Bytes()[:min(64, text.Len())])
 		})
+	}
+}
+
+// c05Decimals: branch lengths that are short decimal numbers, swept over EVERY
+// decimal exponent from 1e-330 to 1e309 and every digit count 1..17 (a few
+// hundred random mantissas each): one star tree per exponent, compared bit by
+// bit after write -> read.
+func c05Decimals(c *Ctx) {
+	per := c.N(300, 4000)
+	idx := int64(0)
+	for exp := -330; exp <= 309; exp++ {
+		c.Case(idx, func(k *K) {
+			r := k.Rand()
+			root := &newick.Node{Name: "r"}
+			for digits := 1; digits <= 17; digits++ {
+				for j := 0; j < per; j++ {
+					root.Children = append(root.Children, &newick.Node{Distance: decimalFloat(r, digits, exp-digits+1)})
+				}
+			}
+			k.Input("decimal_exponent", exp)
+			k.Input("first_distances", fmt.Sprint(root.Children[0].Distance, root.Children[per].Distance, root.Children[8*per].Distance))
+			txt, err := root.MarshalText()
+			if err != nil {
+				k.Failf("marshal", "MarshalText failed: %v", err)
+				return
+			}
+			n := 0
+			for got, err := range newick.Reader(bytes.NewReader(txt)) {
+				n++
+				if err != nil || got == nil || len(got.Children) != len(root.Children) {
+					k.Failf("roundtrip", "a star tree of %d leaves with decimal branch lengths around 1e%d does not read back: err=%v", len(root.Children), exp, err)
+					return
+				}
+				for j, ch := range got.Children {
+					if w := root.Children[j].Distance; !sameFloat(ch.Distance, w) {
+						k.Input("distance", fmt.Sprintf("%v (bits %x)", w, math.Float64bits(w)))
+						k.Failf("roundtrip", "branch length %v (bits %x) is written as %s and reads back as %v (bits %x)", w, math.Float64bits(w), strconv.FormatFloat(w, 'g', -1, 64), ch.Distance, math.Float64bits(ch.Distance))
+						return
+					}
+				}
+			}
+			if n != 1 {
+				k.Failf("roundtrip", "one tree written, %d items read", n)
+				return
+			}
+			k.Count("decimal_distances_roundtripped", int64(len(root.Children)))
+			k.Count("trees_roundtripped", 1)
+			k.Evals(int64(len(root.Children)))
+			k.Nontrivial([]byte(fmt.Sprint("decimals", exp)))
+		})
+		idx++
 	}
 }
